@@ -4,7 +4,7 @@
 From Coq Require Import ZArith QArith Qabs Lia Lqa List Bool Arith Setoid Ring Field.
 From Verif.Lib Require Import QRound.
 From Verif.Model Require Import Sampler SamplerMat.
-From Verif.Proofs Require Import Credit Sampler SamplerMat.
+From Verif.Proofs Require Import Credit Sampler SamplerMat SamplerDet.
 Import ListNotations.
 Open Scope Q_scope.
 
@@ -32,6 +32,14 @@ Proof.
   apply Qle_bool_iff in L. rewrite H in L. unfold cnormsq, c0, tiny in L. simpl in L. lra.
 Qed.
 
+Lemma cabs_lt_ext : forall z z' t, ceq z z' -> cabs_lt z t = cabs_lt z' t.
+Proof.
+  intros z z' t H. unfold cabs_lt, Qltb. f_equal.
+  destruct (Qle_bool (t * t) (cnormsq z)) eqn:E1; destruct (Qle_bool (t * t) (cnormsq z')) eqn:E2; try reflexivity.
+  - apply Qle_bool_iff in E1. rewrite H in E1. apply Qle_bool_iff in E1. congruence.
+  - apply Qle_bool_iff in E2. rewrite <- H in E2. apply Qle_bool_iff in E2. congruence.
+Qed.
+
 (* ------------------------------------------------------------------------------------------ *)
 (* determinant 1                                                                              *)
 (* ------------------------------------------------------------------------------------------ *)
@@ -47,8 +55,6 @@ Definition root_target (sym : symm) (cplx : bool) (a : attempt) : C :=
 
 Record det_one_contract (sym : symm) (cplx : bool) (dim : nat) (a : attempt) (W : fmat) : Prop := {
   d1_det : ceq (a_det a) (mdet dim W);                         (* np.linalg.det is the determinant *)
-  d1_det_real : herm_like sym = true -> creal (a_det a);       (* determinants of (anti)hermitian matrices of the
-                                                                  dimensions that reach this point are real *)
   d1_root_nz : ~ ceq (a_root a) c0;
   d1_root : ceq (cpow (a_root a) dim) (root_target sym cplx a); (* np.power(x, 1/n) is an n-th root of x *)
   d1_root_real : real_det_branch sym cplx = true -> creal (a_root a)   (* a real root of a positive real *)
@@ -93,15 +99,19 @@ Lemma make_det_one_sound : forall sym cplx dim a W M tr,
   has_symmetry sym dim M /\ (ceq (mtrace dim W) c0 -> ceq (mtrace dim M) c0) /\
   ceq (mdet dim M) c1 /\ (cplx = false -> is_real dim dim M).
 Proof.
-  intros sym cplx dim a W M tr Hsym Hreal [Hdet Hdr Hnz Hroot Hrr]. unfold make_det_one.
-  destruct ((symm_eqb sym SAnti || symm_eqb sym SAHerm) && Nat.odd dim); [discriminate|]. cbv zeta.
+  intros sym cplx dim a W M tr Hsym Hreal [Hdet Hnz Hroot Hrr]. unfold make_det_one.
+  destruct ((symm_eqb sym SAnti || symm_eqb sym SAHerm) && Nat.odd dim) eqn:Eassert; [discriminate|]. cbv zeta.
   unfold root_target in Hroot. fold (real_det_branch sym cplx). fold (real_det_branch sym cplx) in Hroot.
   destruct (real_det_branch sym cplx) eqn:Hb.
   - (* the determinant is real *)
     assert (Hdreal : creal (a_det a)).
-    { unfold real_det_branch in Hb. destruct cplx.
-      - apply Hdr. unfold herm_like. simpl in Hb. exact Hb.
-      - apply (creal_ceq (mdet dim W)); [symmetry; exact Hdet | apply mdet_real; apply Hreal; reflexivity]. }
+    { apply (creal_ceq (mdet dim W)); [symmetry; exact Hdet|]. unfold real_det_branch in Hb. destruct cplx.
+      - (* (anti)hermitian: the determinant is real by transpose invariance *)
+        simpl in Hb. destruct sym; simpl in Hb; try discriminate.
+        + apply herm_det_real. exact Hsym.
+        + apply antiherm_even_det_real; [exact Hsym|]. simpl in Eassert.
+          rewrite <- Nat.negb_odd. rewrite Eassert. reflexivity.
+      - apply mdet_real. apply Hreal. reflexivity. }
     pose proof (creal_cofQ_cre _ Hdreal) as Ecof. specialize (Hrr eq_refl).
     assert (Hk : k_ok sym (a_root a)) by (apply k_ok_real; exact Hrr).
     destruct (Qltb 0 (cre (a_det a))) eqn:Hpos.
@@ -152,9 +162,7 @@ Record det_zero_contract (sym : symm) (cplx : bool) (dim : nat) (a : attempt) (W
   (* real matrices: an eigenvalue reported with |imaginary part| < 5e-13 is real *)
   d0_real_sel : cplx = false -> forall k, (k < dim)%nat ->
                 Qltb (Qabs (cim (nth k (a_eigs a) c0))) tiny = true -> creal (nth k (a_eigs a) c0);
-  d0_take : real_idxs (a_eigs a) <> [] -> (a_take a < length (real_idxs (a_eigs a)))%nat;
-  (* real antisymmetric matrices of odd dimension have determinant 0: the early return is always taken *)
-  d0_anti : sym = SAnti -> cabs_lt (a_det a) tiny = true
+  d0_take : real_idxs (a_eigs a) <> [] -> (a_take a < length (real_idxs (a_eigs a)))%nat
 }.
 
 Lemma combine_seq_in : forall (l : list C) s k e, In (k, e) (combine (seq s (length l)) l) ->
@@ -201,12 +209,17 @@ Qed.
 Lemma make_det_zero_sound : forall sym cplx dim a W Z tr,
   has_symmetry sym dim W -> (cplx = false -> is_real dim dim W) ->
   (herm_like sym = true -> cplx = true) ->         (* the constructor forces complex for (anti)hermitian *)
+  (sym = SAnti -> Nat.odd dim = true) ->           (* the constructor admits antisymmetric + det 0 in odd dimensions only *)
   det_zero_contract sym cplx dim a W ->
   make_det_zero sym cplx dim a W = Done Z tr ->
   has_symmetry sym dim Z /\ (cplx = false -> is_real dim dim Z) /\
   ((cabs_lt (a_det a) tiny = true /\ Z = W) \/ (cabs_lt (a_det a) tiny = false /\ ceq (mdet dim Z) c0)).
 Proof.
-  intros sym cplx dim a W Z tr Hsym Hreal Hforce [Hdet Hidx Hlen Heig Hhr Hsel Htake Hanti]. unfold make_det_zero.
+  intros sym cplx dim a W Z tr Hsym Hreal Hforce Hodd [Hdet Hidx Hlen Heig Hhr Hsel Htake]. unfold make_det_zero.
+  (* antisymmetric matrices of odd dimension have determinant 0: the early return is always taken *)
+  assert (Hanti : sym = SAnti -> cabs_lt (a_det a) tiny = true).
+  { intro Es. rewrite (cabs_lt_ext _ _ tiny Hdet). apply cabs_lt_zero. subst sym.
+    apply antisym_odd_det_zero; [exact Hsym | apply Hodd; reflexivity]. }
   destruct (cabs_lt (a_det a) tiny) eqn:Htiny.
   { intro E. inversion E; subst. split; [exact Hsym|]. split; [exact Hreal|]. left. split; reflexivity. }
   cbv zeta. destruct (symm_eqb sym SDiag) eqn:Ediag.
@@ -290,23 +303,17 @@ Definition sq_spec (sym : symm) (traceless : bool) (det : detopt) (cplx : bool) 
   (det <> DOne -> exists d, Qmin lo hi <= d <= Qmax lo hi /\ mnormsq dim dim M == d * d) /\
   (cplx = false -> is_real dim dim M).
 
-Lemma cabs_lt_ext : forall z z' t, ceq z z' -> cabs_lt z t = cabs_lt z' t.
-Proof.
-  intros z z' t H. unfold cabs_lt, Qltb. f_equal.
-  destruct (Qle_bool (t * t) (cnormsq z)) eqn:E1; destruct (Qle_bool (t * t) (cnormsq z')) eqn:E2; try reflexivity.
-  - apply Qle_bool_iff in E1. rewrite H in E1. apply Qle_bool_iff in E1. congruence.
-  - apply Qle_bool_iff in E2. rewrite <- H in E2. apply Qle_bool_iff in E2. congruence.
-Qed.
 
 Lemma sq_attempt_sound : forall sym traceless det cplx dim lo hi a M tr,
   (0 < dim)%nat ->
   (herm_like sym = true -> cplx = true) ->
   (traceless = true -> det <> DZero) ->
+  (det = DZero -> sym = SAnti -> Nat.odd dim = true) ->
   oracle_ok sym traceless det cplx dim a ->
   sq_attempt sym traceless det cplx dim lo hi a = Done M tr ->
   sq_spec sym traceless det cplx dim lo hi M.
 Proof.
-  intros sym traceless det cplx dim lo hi a M tr Hdim Hforce Hexcl [[Hu0 Hu1] Hone Hzero Hnorm].
+  intros sym traceless det cplx dim lo hi a M tr Hdim Hforce Hexcl Hodd [[Hu0 Hu1] Hone Hzero Hnorm].
   unfold sq_attempt. cbv zeta. fold (sq_working sym traceless cplx dim a).
   set (W := sq_working sym traceless cplx dim a) in *.
   destruct (sq_working_spec sym traceless cplx dim a) as (Wsym & Wtr & Wreal). fold W in Wsym, Wtr, Wreal.
@@ -324,7 +331,7 @@ Proof.
     specialize (Hzero eq_refl).
     destruct (make_det_zero sym cplx dim a W) as [Z tz | tz |] eqn:Ez; try discriminate.
     intro E. inversion E; subst M tr. clear E.
-    destruct (make_det_zero_sound sym cplx dim a W Z tz Wsym Wreal Hforce Hzero Ez) as (Zsym & Zreal & Zdet).
+    destruct (make_det_zero_sound sym cplx dim a W Z tz Wsym Wreal Hforce (Hodd eq_refl) Hzero Ez) as (Zsym & Zreal & Zdet).
     assert (Hni : norm_input sym cplx DZero dim a W = Some (materialize dim dim Z)) by (simpl; rewrite Ez; reflexivity).
     destruct (Hnorm _ Hni) as [Hn Hz].
     assert (Msym : has_symmetry sym dim (materialize dim dim Z))
@@ -351,19 +358,20 @@ Qed.
 (* exact zero determinant when the early return was not taken *)
 Lemma sq_attempt_det_zero_exact : forall sym traceless cplx dim lo hi a M tr,
   (herm_like sym = true -> cplx = true) ->
+  (sym = SAnti -> Nat.odd dim = true) ->
   oracle_ok sym traceless DZero cplx dim a ->
   cabs_lt (a_det a) tiny = false ->
   sq_attempt sym traceless DZero cplx dim lo hi a = Done M tr ->
   ceq (mdet dim M) c0.
 Proof.
-  intros sym traceless cplx dim lo hi a M tr Hforce [_ _ Hzero _] Hnt.
+  intros sym traceless cplx dim lo hi a M tr Hforce Hodd [_ _ Hzero _] Hnt.
   unfold sq_attempt. cbv zeta. fold (sq_working sym traceless cplx dim a).
   set (W := sq_working sym traceless cplx dim a) in *.
   destruct (sq_working_spec sym traceless cplx dim a) as (Wsym & _ & Wreal). fold W in Wsym, Wreal.
   specialize (Hzero eq_refl). unfold sq_normalize.
   destruct (make_det_zero sym cplx dim a W) as [Z tz | tz |] eqn:Ez; try discriminate.
   intro E. inversion E; subst M tr. clear E.
-  destruct (make_det_zero_sound sym cplx dim a W Z tz Wsym Wreal Hforce Hzero Ez) as (_ & _ & [[Ht _] | [_ Hd0]]);
+  destruct (make_det_zero_sound sym cplx dim a W Z tz Wsym Wreal Hforce Hodd Hzero Ez) as (_ & _ & [[Ht _] | [_ Hd0]]);
     [congruence|].
   rewrite base_normalize_det, (mdet_ext dim _ _ (materialize_meq dim dim Z)), Hd0. ring.
 Qed.
@@ -428,6 +436,21 @@ Proof.
   - subst. rewrite Nat2Z.inj_add, Nat2Z.inj_mul. simpl Z.of_nat. rewrite Z.add_comm, Z.mul_comm. apply Z.mod_add. lia.
 Qed.
 
+Lemma even_mod2 : forall n, (Z.of_nat n mod 2 =? 0)%Z = false -> Nat.odd n = true.
+Proof.
+  intros n H. destruct (Nat.odd n) eqn:E; [reflexivity|]. exfalso.
+  rewrite <- Nat.negb_even in E. apply negb_false_iff in E. apply Nat.even_spec in E. destruct E as [k Hk]. subst.
+  rewrite Nat2Z.inj_mul, Z.mul_comm, Z.mod_mul in H by lia. discriminate.
+Qed.
+
+Lemma sqm_init_anti_zero_odd : forall traceless cplx0 dim cplx,
+  sqm_init SAnti traceless DZero cplx0 (Z.of_nat dim) = Some cplx -> Nat.odd dim = true.
+Proof.
+  intros traceless cplx0 dim cplx H. unfold sqm_init in H. cbv zeta in H. simpl in H.
+  destruct traceless; [discriminate|]. simpl in H. destruct cplx0; [discriminate|]. simpl in H.
+  destruct (Z.of_nat dim mod 2 =? 0)%Z eqn:E; [discriminate|]. apply even_mod2. exact E.
+Qed.
+
 (* every accepted configuration can be realised by the pipeline: neither the assert nor
    "Unknown class configuration" is reachable *)
 Lemma sqm_accepted_total : forall sym traceless det cplx0 dim cplx lo hi a,
@@ -476,6 +499,7 @@ Proof.
     + apply generate_loop_passes in H. lia.
     + intro Hok. apply generate_loop_done in H. destruct H as (a & tr & Hin & Hs).
       destruct (sqm_init_forces _ _ _ _ _ _ Hinit) as [Hf _].
-      apply (sq_attempt_sound sym traceless det cplx dim lo hi a M tr Hdim Hf); [| apply Hok; exact Hin | exact Hs].
-      intro Ht. subst traceless. apply (sqm_init_traceless_zero _ _ _ _ _ Hinit).
+      apply (sq_attempt_sound sym traceless det cplx dim lo hi a M tr Hdim Hf); [| | apply Hok; exact Hin | exact Hs].
+      * intro Ht. subst traceless. apply (sqm_init_traceless_zero _ _ _ _ _ Hinit).
+      * intros -> ->. apply (sqm_init_anti_zero_odd _ _ _ _ Hinit).
 Qed.
